@@ -204,8 +204,16 @@ func runHealthz(id int, seed int64, steps int) []interface{} {
 			sc.Http.Rules = append(sc.Http.Rules, own)
 		}
 	}
-	health.AddHealthz(sc)
-	mux, err := larking.NewMux(larking.ServiceConfigOption(sc))
+	// the option may be built before the configuration is complete: what counts is the configuration NewMux is given
+	var scOpt larking.MuxOption
+	if id%4 >= 2 {
+		scOpt = larking.ServiceConfigOption(sc)
+		health.AddHealthz(sc)
+	} else {
+		health.AddHealthz(sc)
+		scOpt = larking.ServiceConfigOption(sc)
+	}
+	mux, err := larking.NewMux(scOpt)
 	if err != nil {
 		panic(err)
 	}
